@@ -197,6 +197,10 @@ class S:
         if o is NotImplemented:
             return o
         if self.is_real and o.is_real:
+            if not _is_const(self.re) and not _is_const(o.re) and _CTX and self.re.get_id() == o.re.get_id():
+                rad = _CTX[-1].sqrt_arg.get(self.re.get_id())
+                if rad is not None:
+                    return S(rad)                       # sqrt(x) * sqrt(x) = x
             return S(_mul(self.re, o.re))
         if o.is_real:
             return S(_mul(self.re, o.re), _mul(self.im, o.re))
@@ -505,6 +509,7 @@ class Ctx:
         self.solver_s = 0.0
         self.max_paths = 64
         self.sqrt_cache = {}
+        self.sqrt_arg = {}                # id of a sqrt symbol -> its radicand
 
     def __enter__(self):
         _CTX.append(self)
@@ -561,6 +566,7 @@ class Ctx:
         self.side.append(r * r == _z(x.re))
         self.defs.append((r, "sqrt", _z(x.re)))
         self.sqrt_cache[key] = r
+        self.sqrt_arg[r.get_id()] = x.re
         return S(r)
 
     def floor(self, x: S):
@@ -613,8 +619,11 @@ class Ctx:
         if x.is_const:
             if x.im == 0:
                 return self.fn1("exp", x) if x.re != 0 else S(Fraction(1))
-            v = complex(math.exp(float(x.re))) * complex(math.cos(float(x.im)), math.sin(float(x.im)))
-            return S(_frac(v.real), _frac(v.imag))
+            c, s = _const_cos_sin(float(x.im))
+            if x.re == 0:
+                return S(c, s)
+            m = _frac(math.exp(float(x.re)))
+            return S(m * c, m * s)
         mag = S(Fraction(1)) if (_is_const(x.re) and x.re == 0) else self.fn1("exp", S(x.re))
         if _is_const(x.im) and x.im == 0:
             return mag
@@ -625,10 +634,8 @@ class Ctx:
         if not x.is_real:
             raise Unsupported("trig of complex")
         if x.is_const:
-            v = math.cos(float(x.re)) if which == "cos" else math.sin(float(x.re))
-            if x.re == 0:
-                return S(Fraction(1 if which == "cos" else 0))
-            return S(_frac(v))
+            c, s = _const_cos_sin(float(x.re))
+            return S(c if which == "cos" else s)
         c, s = self.cos_sin(x)
         return c if which == "cos" else s
 
@@ -771,6 +778,18 @@ class Ctx:
         self.solver_s += time.perf_counter() - t
         self.queries += 1
         return str(r)
+
+
+def _const_cos_sin(theta: float):
+    """cos/sin of a constant angle: exact at multiples of pi/2 (within 1e-9), float64 otherwise"""
+    q = theta / (math.pi / 2)
+    k = round(q)
+    if abs(q - k) < 1e-9:
+        c, s = [(1, 0), (0, 1), (-1, 0), (0, -1)][k % 4]
+        return Fraction(c), Fraction(s)
+    if _CTX:
+        _CTX[-1].inexact = True
+    return _frac(math.cos(theta)), _frac(math.sin(theta))
 
 
 def _q(v):
